@@ -121,6 +121,7 @@ func (self *ListIterator) Next(v *Node) bool {
 	if n == nil {
 		return false
 	}
+	n.settle()
 	*v = *n
 	return true
 }
@@ -146,6 +147,7 @@ func (self *ObjectIterator) Next(p *Pair) bool {
 	if n == nil {
 		return false
 	}
+	n.Value.settle()
 	*p = *n
 	return true
 }
